@@ -674,7 +674,7 @@ DSL_WORDS = set("let mut map then and_then futures_crate_path custom_joiner tran
 
 
 # identifiers the case generator uses as operand markers (never written by the scaffold)
-MARKER_RE = re.compile(r"^(?:[ifcezyb]\d+(?:_\d+)?|init|first|last|inner|after|insp|fa|fb|ia|ib|da|db|mid|next|second|blk|ff|hh|"
+MARKER_RE = re.compile(r"^(?:[fg]|[ifcezyb]\d+(?:_\d+)?|init|first|last|inner|after|insp|fa|fb|ia|ib|da|db|mid|next|second|blk|ff|hh|"
                        r"cap\d+|conv|mk|flag|foo)$")
 
 
